@@ -224,33 +224,34 @@ Proof. exact name_survives_save_open_macroman_lemma. Qed.
 Print Assumptions name_survives_save_open_macroman.
 
 (* =========================================================== names given at construction *)
-(* Group.new / PixelLayer.frompil put the name into the legacy field with no '?' fallback:
-   "every name survives" is false for them (finding F-C19-3; witness U+0416 replayed on the code) *)
+(* F-C19-3 (fixed by cc4d99c).  BEFORE the fix Group.new / PixelLayer.frompil put the name into
+   the legacy field with no '?' fallback; for those original constructors (Model: *_rec_orig)
+   "every name survives" was false - kept as documentation, witness U+0416: *)
 Theorem ctor_name_save_refuted :
   exists v, scalar_str v /\ Z.of_nat (length v) < 256 /\
-    forall pre, write_name_part macroman_enc pre (group_new_rec v) = Err ValueErr /\
-                write_name_part macroman_enc pre (frompil_rec v) = Err ValueErr.
+    forall pre, write_name_part macroman_enc pre (group_new_rec_orig v) = Err ValueErr /\
+                write_name_part macroman_enc pre (frompil_rec_orig v) = Err ValueErr.
 Proof. exact ctor_name_save_refuted_lemma. Qed.
 Print Assumptions ctor_name_save_refuted.
 
-(* under the guard "the legacy field can take the name in the save encoding" they do survive *)
-Theorem group_new_name_survives_save_open : forall enc dec v pre bs w data,
-  valid_str v -> joinable_free v = true ->
-  enc v = Some data -> dec data = Some v ->
-  write_name_part enc pre (group_new_rec v) = Ok (bs, w) ->
-  exists r, read_name_part dec bs = Ok r /\ get_name r = v.
-Proof. exact group_new_name_survives. Qed.
-Print Assumptions group_new_name_survives_save_open.
+(* The constructors as they are now (Model.ctor_rec) apply the rule of the setter: *)
+Theorem ctor_keeps_unicode : forall em v, Z.of_nat (length v) < 256 ->
+  exists r', ctor_rec em v = Ok r' /\ get_name r' = v /\ (em v = None -> rec_name r' = [63]).
+Proof. exact ctor_name_total_lemma. Qed.
+Print Assumptions ctor_keeps_unicode.
 
-Theorem frompil_name_survives_save_open : forall enc dec v pre bs w data,
-  enc v = Some data -> dec data = Some v ->
-  write_name_part enc pre (frompil_rec v) = Ok (bs, w) ->
-  exists r, read_name_part dec bs = Ok r /\ get_name r = v.
-Proof. exact frompil_name_survives. Qed.
-Print Assumptions frompil_name_survives_save_open.
+(* ... so with the default encoding a document holding such a layer can always be saved and
+   the name read back is the full Unicode string - no guard left *)
+Theorem ctor_name_survives_save_open_macroman : forall v r' pre,
+  valid_str v -> joinable_free v = true -> 0 <= pre ->
+  ctor_rec macroman_enc v = Ok r' ->
+  exists bs w r'', write_name_part macroman_enc pre r' = Ok (bs, w) /\
+                   read_name_part macroman_dec bs = Ok r'' /\ get_name r'' = v.
+Proof. exact ctor_name_survives_macroman_lemma. Qed.
+Print Assumptions ctor_name_survives_save_open_macroman.
 
-Example ctor_hyp : exists bs w, write_name_part macroman_enc 44 (group_new_rec [0xE9; 97]) = Ok (bs, w).
-Proof. eexists. eexists. vm_compute. reflexivity. Qed.
+Example ctor_hyp : exists r', ctor_rec macroman_enc [0x416; 0x1F600] = Ok r' /\ rec_name r' = [63].
+Proof. eexists. split; reflexivity. Qed.
 
 (* the setter decides the fallback with mac_roman; saving with another encoding can still fail
    (finding F-C19-4; witness U+00E9 saved with encoding ascii) - which is why name_survives_save_open
